@@ -596,7 +596,7 @@ fn is_changed_after_unmarking_chemistry(mathml: Element) -> bool {
         for child in mathml.children() {
             let child = as_element(child);
             if name(&child) == "mtd" {
-                assert_eq!(child.children().len(), 1);
+                // normally there is one child, but there can be several in bad MathML (e.g., an mtd that is not inside of an mtr)
                 // let mtd_child = as_element(child.children()[0]);
                 // if mtd_child.attribute(CHEM_FORMULA).is_none() && mtd_child.attribute(CHEM_EQUATION).is_none() {
                 // } else {
